@@ -4,43 +4,35 @@
    (I) interleaving level: model/C04_race.v, steps = the yield points of the instrumented
        unix_volume.go; every interleaving of a TOUCH/PUT request with a DELETE request. *)
 From Coq Require Import ZArith NArith List String Bool.
-From AV Require Import lib.Str model.C04_model model.C04_run model.C04_fixes model.C04_race model.C04_race_run
-  proofs.C04_proofs proofs.C04_frame_proofs proofs.C04_fix_proofs proofs.C04_spec_proofs proofs.C04_meets_proofs proofs.C04_race_proofs.
+From AV Require Import lib.Str model.C04_model model.C04_run model.C04_old model.C04_race model.C04_race_run
+  proofs.C04_proofs proofs.C04_frame_proofs proofs.C04_spec_proofs proofs.C04_meets_proofs proofs.C04_race_proofs.
 Import ListNotations.
 Local Open Scope Z_scope.
 
 (* ================= (H) ================= *)
 
-(* fresh_survives: after an acknowledged Put/Touch of h at time t, for every history of further
-   requests (Put, Touch, Get, trash lists, Delete, EmptyTrash, Untrash of other hashes) with a
-   non-decreasing clock that stays below t + ttl, some volume holds h as a block file with timestamp
-   >= t.  Every prefix of such a history is such a history, so this holds at every later point. *)
+(* fresh_survives (full strength since /repo fa470fa): after an acknowledged Put/Touch of h at time t,
+   for EVERY history of further requests — Put, Touch, Get, trash lists, Delete, EmptyTrash, Untrash, of
+   any hash — with a non-decreasing clock that stays below t + ttl, some volume holds h as a block file
+   with timestamp >= t.  Every prefix of such a history is such a history, so this holds at every
+   later point. *)
 Theorem C04_fresh_survives : forall c s t o h code s1 hs,
   (o = Put h \/ o = Touch h) -> step c s t o = (code, s1) -> code = 200%N ->
-  nondecr t hs -> Forall (fun p => fst p < t + ttl c /\ snd p <> Untrash h) hs ->
+  nondecr t hs -> Forall (fun p => fst p < t + ttl c) hs ->
   exists v m, In v (vols (final c s1 hs)) /\ find_block (v_blocks v) h = Some m /\ t <= m.
 Proof. exact fresh_survives_clock. Qed.
 Print Assumptions C04_fresh_survives.
 
-(* F20 (genuine defect, still in /repo): with an Untrash of the same hash in the history the statement
-   is false — Untrash renames an older trashed copy over the fresh block file, the next Delete
-   trashes it: no volume holds the block although the Put was acknowledged less than ttl ago *)
-Theorem C04_fresh_survives_untrash_refuted :
+(* regression witness, about the OLD model only (model/C04_old.v = Untrash before fa470fa, finding F20):
+   there the statement was false — Untrash renamed an older trashed copy over the fresh block file and
+   the next Delete trashed it *)
+Theorem C04_old_model_fresh_survives_untrash_refuted :
   exists c s t h code s1 hs,
-    step c s t (Put h) = (code, s1) /\ code = 200%N /\ nondecr t hs /\
+    step_old c s t (Put h) = (code, s1) /\ code = 200%N /\ nondecr t hs /\
     Forall (fun p => fst p < t + ttl c) hs /\
-    ~ (exists v m, In v (vols (final c s1 hs)) /\ find_block (v_blocks v) h = Some m).
-Proof. exact fresh_survives_untrash_refuted. Qed.
-Print Assumptions C04_fresh_survives_untrash_refuted.
-
-(* with the repair proposed in fixes/F20.diff (Untrash keeps an existing block file) the statement
-   holds for ALL histories, Untrash of the same hash included *)
-Theorem C04_fresh_survives_with_F20_repair : forall c s t o h code s1 hs,
-  (o = Put h \/ o = Touch h) -> step_fixed c s t o = (code, s1) -> code = 200%N ->
-  Forall (fun p => t <= fst p /\ fst p < t + ttl c) hs ->
-  exists v m, In v (vols (final_fixed c s1 hs)) /\ find_block (v_blocks v) h = Some m /\ t <= m.
-Proof. exact fresh_survives_fixed. Qed.
-Print Assumptions C04_fresh_survives_with_F20_repair.
+    ~ (exists v m, In v (vols (final_old c s1 hs)) /\ find_block (v_blocks v) h = Some m).
+Proof. exact old_fresh_survives_untrash_refuted. Qed.
+Print Assumptions C04_old_model_fresh_survives_untrash_refuted.
 
 (* what a single request can do to a single volume *)
 Theorem C04_step_shape : forall c now s o, Forall2 (change c now o) (vols s) (vols (snd (step c s now o))).
@@ -102,21 +94,15 @@ Print Assumptions C04_deadline_whole_seconds.
    (per step and volume: read-only unchanged; a block disappears only as trash_only_matching says, into
    a trash entry whose deadline lies in the window; trash entries leave only by untrash or an expired
    sweep; new trash entries are removed blocks; block timestamps change only by Put/Touch/Untrash;
-   untrash restores; and fresh_survives over the whole history); the F20 predicate is exactly
-   "only fresh_survives fails, and it holds again when the search stops at an Untrash of that hash" *)
+   untrash restores; and fresh_survives over the whole history, Untrash included) *)
 Theorem C04_spec_b_reflects : forall c, C04_run.spec_b c = true <-> SpecH c.
 Proof. exact C04_spec_proofs.spec_b_iff. Qed.
 Print Assumptions C04_spec_b_reflects.
 
-Theorem C04_known_F20_predicate : forall c, known_F20_b c = true <->
-  StepsOk (c_cfg c) (c_ro c) (c_uuid c) (c_init c) (c_steps c) /\ ~ FreshOk (c_cfg c) false (c_steps c) /\ FreshOk (c_cfg c) true (c_steps c).
-Proof. exact known_F20_iff. Qed.
-Print Assumptions C04_known_F20_predicate.
-
 (* the model's own trace (every configuration, initial state and history with a non-decreasing clock)
-   satisfies the fresh_survives clause of that oracle outside the F20 trigger *)
+   satisfies the fresh_survives clause of that oracle *)
 Theorem C04_model_meets_fresh_clause : forall c hs s prev,
-  nondecr prev hs -> fresh_ok c true (obs_run c s hs) = true.
+  nondecr prev hs -> fresh_ok c false (obs_run c s hs) = true.
 Proof. exact model_fresh_ok_b. Qed.
 Print Assumptions C04_model_meets_fresh_clause.
 
@@ -148,33 +134,20 @@ Theorem C04_touch_trash_race : forall p rm n s,
 Proof. exact touch_trash_race. Qed.
 Print Assumptions C04_touch_trash_race.
 
-(* put_trash_race for an absent or intact pre-existing copy *)
-Theorem C04_put_trash_race_partial : forall p rm n s,
-  p <> POldCorrupt ->
+(* put_trash_race at full strength (since /repo a9eb270 WriteBlock takes the flock on the file it
+   replaces): EVERY interleaving of a PUT request and Trash, every prior copy — absent, intact,
+   CORRUPT, fresh — both trash modes: the PUT fails or the intact block is at its path; no deadlock *)
+Theorem C04_put_trash_race : forall p rm n s,
   rrun n (init p true rm) s -> succs s = [] -> contract s = true /\ both_done s = true.
-Proof. exact put_trash_race_partial. Qed.
-Print Assumptions C04_put_trash_race_partial.
+Proof. exact put_trash_race. Qed.
+Print Assumptions C04_put_trash_race.
 
-(* F7 (genuine defect, still in /repo): with a corrupt old copy, WriteBlock (no flock) can replace the
-   file between Trash's stat and Trash's rename/unlink *)
-Theorem C04_put_trash_race_corrupt_refuted : forall rm,
-  exists n s, rrun n (init POldCorrupt true rm) s /\ succs s = [] /\ contract s = false /\ put_acked_but_gone s = true.
-Proof. exact put_trash_race_corrupt_refuted. Qed.
-Print Assumptions C04_put_trash_race_corrupt_refuted.
-
-(* ... and only then: every maximal schedule outside the F7 trigger keeps the contract *)
-Theorem C04_put_trash_race_corrupt_partial : forall rm sch s,
-  exec (init POldCorrupt true rm) sch = Some s -> succs s = [] ->
-  f7_trigger rm (labels (init POldCorrupt true rm) sch) = false -> contract s = true.
-Proof. exact put_trash_race_corrupt_partial. Qed.
-Print Assumptions C04_put_trash_race_corrupt_partial.
-
-(* with the repair proposed in fixes/F7.diff (WriteBlock takes the flock on the file it replaces) every
-   interleaving keeps the contract for every prior state, corrupt included, and nobody deadlocks *)
-Theorem C04_put_trash_race_with_F7_repair : forall p rm n s,
-  rrun n (init7 p true rm true) s -> succs s = [] -> contract s = true /\ both_done s = true.
-Proof. exact put_trash_race_fixed. Qed.
-Print Assumptions C04_put_trash_race_with_F7_repair.
+(* regression witness, about the OLD model only (init_old = WriteBlock without flock, finding F7): with
+   a corrupt old copy the acknowledged block could end in the trash (or be unlinked, lifetime 0) *)
+Theorem C04_old_model_put_trash_race_corrupt_refuted : forall rm,
+  exists n s, rrun n (init_old POldCorrupt true rm) s /\ succs s = [] /\ contract s = false /\ put_acked_but_gone s = true.
+Proof. exact old_put_trash_race_corrupt_refuted. Qed.
+Print Assumptions C04_old_model_put_trash_race_corrupt_refuted.
 
 Theorem C04_fresh_block_never_trashed : forall put rm n s,
   rrun n (init PFreshGood put rm) s -> succs s = [] -> exists i, at_path s = Some i /\ i_cont i = Good.
